@@ -230,17 +230,12 @@ impl UnifiedDiff {
                     if self.unexpected_start.is_none() {
                         self.unexpected_start = Some(expectation_index)
                     }
-                    self.unexpected_lines.extend(
-                        lines
-                            .iter()
-                            .map(|(i, l)| {
-                                Ok((
-                                    *i,
-                                    String::from_utf8((l as &[u8]).trim_newlines().to_vec())?,
-                                ))
-                            })
-                            .collect::<Result<Vec<_>>>()?,
-                    );
+                    self.unexpected_lines.extend(lines.iter().map(|(i, l)| {
+                        (
+                            *i,
+                            String::from_utf8_lossy((l as &[u8]).trim_newlines()).to_string(),
+                        )
+                    }));
                     if self.unmatched_start.is_some() {
                         add_diff_hunk!();
                     }
